@@ -251,7 +251,18 @@ impl SmartCalcConfig {
             }
 
             for month in month_list.iter() {
-                let pattern = &format!(r"\b{}\b|\b{}\b", month.long, month.short);
+                /* A month can have more than one spelling (subat and şubat), all of them are readable */
+                let mut names = Vec::new();
+                for (month_name, month_number) in language_constant.long_months.iter().chain(language_constant.short_months.iter()) {
+                    if *month_number == month.month {
+                        names.push(month_name.to_string());
+                    }
+                }
+
+                let pattern = &match names.is_empty() {
+                    true => format!(r"\b{}\b|\b{}\b", month.long, month.short),
+                    false => format!(r"\b({})\b", names.join("|"))
+                };
                 match Regex::new(pattern) {
                     Ok(re) => language_group.push((re, month.clone())),
                     Err(error) => log::error!("Month parser error ({}) {}", month.long, error)
